@@ -11,6 +11,7 @@ package fbserver
 import (
 	"context"
 	"net"
+	"strings"
 
 	"github.com/facebookincubator/dns/dnsrocks/dnsserver"
 	"github.com/facebookincubator/dns/dnsrocks/dnsserver/stats"
@@ -21,7 +22,7 @@ import (
 
 //verif:include ../dnsdata/rdb/zz_verif_model.go
 //verif:include ../db/zz_verif_world.go
-//verif:harness H20_chain property=C20 native=no quick=layout=2,whoami=1,any=1,maxans=2;layout=0,whoami=0,any=0,maxans=1;layout=1,whoami=0,any=0,maxans=2 thorough=layout=1,whoami=1,any=0,maxans=3;layout=2,whoami=0,any=1,maxans=1;layout=0,whoami=1,any=1,maxans=2
+//verif:harness H20_chain property=C20 native=no quick=layout=2,whoami=1,any=1,maxans=2,ips=1;layout=0,whoami=0,any=0,maxans=1,ips=1;layout=1,whoami=0,any=0,maxans=2,ips=1;layout=2,whoami=0,any=0,maxans=1,ips=2 thorough=layout=1,whoami=1,any=0,maxans=3,ips=1;layout=2,whoami=0,any=1,maxans=1,ips=1;layout=0,whoami=1,any=1,maxans=2,ips=1
 //verif:subst H20_chain github.com/facebookincubator/dns/dnsrocks/dnsserver.typeToStatsKey github.com/facebookincubator/dns/dnsrocks/dnsserver.VerifStatsKeyStub
 //verif:subst H20_chain (*github.com/facebookincubator/dns/dnsrocks/fbserver.Server).initUDPServer github.com/facebookincubator/dns/dnsrocks/fbserver.verifInitUDP
 //verif:subst H20_chain (*github.com/facebookincubator/dns/dnsrocks/fbserver.Server).initTCPServer github.com/facebookincubator/dns/dnsrocks/fbserver.verifInitTCP
@@ -45,15 +46,19 @@ var verifC20Names = []string{"c.z.", "big.z.", "w.z.", "q.z.", "d.z.", "y.", "wh
 
 func H20_chain() {
 	layout := nd.Param("layout")
-	maxans := nd.Param("maxans")
+	maxans0 := nd.Param("maxans")
 	tdb := dnsserver.VerifHandlerOver(dnsserver.VerifBigWorld(), layout)
-	conf := ServerConfig{IPAns: ipAns{"192.0.2.53": maxans}, Port: 53, TCP: true, RefuseANY: nd.Param("any") == 1}
+	conf := ServerConfig{IPAns: ipAns{"192.0.2.53": maxans0}, Port: 53, TCP: true, RefuseANY: nd.Param("any") == 1}
+	if nd.Param("ips") == 2 {
+		// a second listening address with its own (larger) max-answer setting
+		conf.IPAns["192.0.2.54"] = maxans0 + 2
+	}
 	if nd.Param("whoami") == 1 {
 		conf.WhoamiDomain = "whoami.test"
 	}
 	srv := &Server{conf: conf, db: tdb, stats: &stats.DummyStats{}, metricsExporter: verifExporter{}}
 	nd.Assert(srv.Start() == nil, "start-ok")
-	nd.Assert(len(srv.servers) == 2, "one-udp-and-one-tcp-listener")
+	nd.Assert(len(srv.servers) == 2*nd.Param("ips"), "one-udp-and-one-tcp-listener-per-address")
 
 	name := verifC20Names[nd.Choice(len(verifC20Names))]
 	// any query type and class, any id and RD/CD bits (solver-chosen)
@@ -85,6 +90,11 @@ func H20_chain() {
 	var udpResp, tcpResp *dns.Msg
 	for _, s := range srv.servers {
 		tcp := s.Net == "tcp"
+		// this listener's own max-answer setting
+		maxans := maxans0
+		if strings.HasPrefix(s.Addr, "192.0.2.54") {
+			maxans = maxans0 + 2
+		}
 		q := build()
 		addOPT(q)
 		w := dnsserver.VerifNewWriter(tcp, remote)
@@ -141,7 +151,7 @@ func H20_chain() {
 			}
 		}
 	}
-	if withQuestion && udpResp != nil && tcpResp != nil {
+	if withQuestion && udpResp != nil && tcpResp != nil && nd.Param("ips") == 1 {
 		if udpResp.Truncated {
 			nd.Assert(!tcpResp.Truncated, "complete-over-tcp")
 			nd.Assert(len(tcpResp.Answer) >= len(udpResp.Answer), "tcp-has-at-least-the-udp-answers")
